@@ -294,16 +294,20 @@ func init() {
 		"(*github.com/spf13/cobra.Command).Context":     pureFresh,
 		"(*github.com/spf13/cobra.Command).OutOrStdout": pureFresh,
 		"(*github.com/spf13/cobra.Command).ErrOrStderr": pureFresh,
-		"bufio.NewWriter":         pureFresh,
-		"(*bufio.Writer).Flush":   outUnknown,
-		"(*sync.RWMutex).Lock":    pureFresh,
-		"(*sync.RWMutex).Unlock":  pureFresh,
-		"(*sync.RWMutex).RLock":   pureFresh,
-		"(*sync.RWMutex).RUnlock": pureFresh,
-		"(*sync.Mutex).Lock":      pureFresh,
-		"(*sync.Mutex).Unlock":    pureFresh,
-		"math.Log":                uninterp("math_Log"),
-		"math.Inf":                uninterp("math_Inf"),
+		"bufio.NewWriter": pureFresh,
+		// starting a goroutine: the spawned function runs concurrently and is not part of the caller's sequential effect (concurrency is not modelled)
+		"(*golang.org/x/sync/errgroup.Group).Go": pureFresh,
+		"path.Join":                              pureFresh,
+		"path/filepath.Join":                     pureFresh,
+		"(*bufio.Writer).Flush":                  outUnknown,
+		"(*sync.RWMutex).Lock":                   pureFresh,
+		"(*sync.RWMutex).Unlock":                 pureFresh,
+		"(*sync.RWMutex).RLock":                  pureFresh,
+		"(*sync.RWMutex).RUnlock":                pureFresh,
+		"(*sync.Mutex).Lock":                     pureFresh,
+		"(*sync.Mutex).Unlock":                   pureFresh,
+		"math.Log":                               uninterp("math_Log"),
+		"math.Inf":                               uninterp("math_Inf"),
 		"math.Abs": func(a *Act, st *State, c *ssa.Function, x []Val, p tokenPos) Val {
 			return t1(app("absr", x[0].T), resType(c, 0))
 		},
